@@ -10,18 +10,24 @@ stateless (array given as a decimal integer):
   get A I W                → v=N
   set A I V W              → a=N
   incr A I W BY            → a=N v=N                      (v = field I afterwards)
-history on one key at a fixed width (model `Bits.run` and ideal array `Counters.run` side by side):
-  bits W                   → ok                           (key absent)
+history on one key of the TTL store at a fixed width (model `Bits.tstep` - lazy deletion of a run-out
+entry - and ideal eagerly expiring counter array `Counters.tstep` side by side; time in ticks):
+  bits W                   → ok                           (key absent, now = 0)
   getbits L                → model=L spec=L               (L = comma list, `-` = empty)
   incrbits BY L            → model=L spec=L
-  val                      → a=N                          (the model's integer)
+  expire T                 → model=- spec=-               (`expire(key, T ticks)`)
+  del                      → model=B spec=B               (B = 1/0: what `delete` answered)
+  touch                    → model=B spec=B               (`exists(key)`)
+  adv D                    → model=- spec=-               (D ticks pass)
+  val                      → a=N stored=T|F               (the array the key logically holds; is an entry physically stored)
 index derivation (hash values are DATA supplied by the harness: for algorithm a, the values of
 `algorithms[a](f"{key}_{j}".encode())` for j = 0 .. K+FUEL-1; crc32 stays uninterpreted):
   idx REG KEYHEX K M FUEL T0;T1;…   → assert | nofuel | S=L re=MAXREPROBES   (stores S in register REG)
-Bloom filter (index lists are `L` or `$REG`):
+Bloom filter (index lists are `L` or `$REG`); the filter's key lives in the same TTL store:
   bloom                    → ok
   badd R L                 → ok                           (R = T/F: result of the wrapped function)
   bquery CHK UNDER L       → ans=T|F calls=T|F
+  bexpire T | bdel | btouch | badv D → ok                 (commands on the filter's key, passage of time)
   dual                     → ok
   dcall NOCOLL UNDER LT LF → ans=T|F calls=T|F
 -/
@@ -29,9 +35,9 @@ open CashewsVerif CashewsVerif.Proto
 
 structure St where
   w : Nat := 1
-  a : Nat := 0
-  c : Nat → Nat := Counters.init
-  filt : Nat := 0
+  t : Bits.TState := ⟨0, none⟩
+  c : Counters.TCounters := Counters.fresh 0
+  filt : Bits.TState := ⟨0, none⟩
   dual : Bloom.Dual := ⟨0, 0⟩
   regs : List (String × List Nat) := []
 
@@ -88,6 +94,12 @@ def doIdx (st : St) (reg key k m fuel tabs : String) : St × String :=
         ({ st with regs := (reg, S) :: st.regs.filter (fun p => p.1 != reg) }, s!"S={showList S} re={re}")
   | _, _, _, _, _ => (st, "bad-op")
 
+/-- one command on the history key: model and ideal array side by side -/
+def tcmd (st : St) (op : Bits.TOp) : St × String :=
+  let r := Bits.tstep st.w st.t op
+  let r' := Counters.tstep st.w st.c op
+  ({ st with t := r.1, c := r'.1 }, s!"model={showList r.2} spec={showList r'.2}")
+
 def step (st : St) (line : String) : St × String :=
   match words line with
   | ["get", a, i, w] =>
@@ -106,34 +118,49 @@ def step (st : St) (line : String) : St × String :=
     | _, _, _, _ => (st, "bad-op")
   | ["bits", w] =>
     match w.toNat? with
-    | some w => ({ st with w := w, a := 0, c := Counters.init }, "ok")
+    | some w => ({ st with w := w, t := ⟨0, none⟩, c := Counters.fresh 0 }, "ok")
     | none => (st, "bad-op")
   | ["getbits", l] =>
     match parseList? l with
-    | some l =>
-      let r := Bits.step st.w st.a (.getBits l)
-      let r' := Counters.step st.w st.c (.getBits l)
-      ({ st with a := r.1, c := r'.1 }, s!"model={showList r.2} spec={showList r'.2}")
+    | some l => tcmd st (.getBits l)
     | none => (st, "bad-op")
   | ["incrbits", b, l] =>
     match b.toInt?, parseList? l with
-    | some b, some l =>
-      let r := Bits.step st.w st.a (.incrBits l b)
-      let r' := Counters.step st.w st.c (.incrBits l b)
-      ({ st with a := r.1, c := r'.1 }, s!"model={showList r.2} spec={showList r'.2}")
+    | some b, some l => tcmd st (.incrBits l b)
     | _, _ => (st, "bad-op")
-  | ["val"] => (st, s!"a={st.a}")
+  | ["expire", t] =>
+    match t.toNat? with
+    | some t => tcmd st (.expire t)
+    | none => (st, "bad-op")
+  | ["del"] => tcmd st .delete
+  | ["touch"] => tcmd st .touch
+  | ["adv", d] =>
+    match d.toNat? with
+    | some d => tcmd st (.adv d)
+    | none => (st, "bad-op")
+  | ["val"] => (st, s!"a={(st.t.view.map (·.a)).getD 0} stored={showBool st.t.slot.isSome}")
   | ["idx", reg, key, k, m, fuel, tabs] => doIdx st reg key k m fuel tabs
-  | ["bloom"] => ({ st with filt := 0 }, "ok")
+  | ["bloom"] => ({ st with filt := ⟨0, none⟩ }, "ok")
   | ["badd", r, l] =>
     match parseBool? r, idxArg? st l with
-    | some r, some l => ({ st with filt := Bloom.add st.filt l r }, "ok")
+    | some r, some l => ({ st with filt := Bloom.fstep st.filt (.add l r) }, "ok")
     | _, _ => (st, "bad-op")
   | ["bquery", chk, under, l] =>
     match parseBool? chk, parseBool? under, idxArg? st l with
     | some chk, some under, some l =>
-      (st, s!"ans={showBool (Bloom.query st.filt l chk under)} calls={showBool (Bloom.queryCalls st.filt l chk)}")
+      ({ st with filt := Bloom.fstep st.filt (.query l) },
+        s!"ans={showBool (Bloom.tquery st.filt l chk under)} calls={showBool (Bloom.tqueryCalls st.filt l chk)}")
     | _, _, _ => (st, "bad-op")
+  | ["bexpire", t] =>
+    match t.toNat? with
+    | some t => ({ st with filt := Bloom.fstep st.filt (.expire t) }, "ok")
+    | none => (st, "bad-op")
+  | ["bdel"] => ({ st with filt := Bloom.fstep st.filt .delete }, "ok")
+  | ["btouch"] => ({ st with filt := Bloom.fstep st.filt .touch }, "ok")
+  | ["badv", d] =>
+    match d.toNat? with
+    | some d => ({ st with filt := Bloom.fstep st.filt (.adv d) }, "ok")
+    | none => (st, "bad-op")
   | ["dual"] => ({ st with dual := ⟨0, 0⟩ }, "ok")
   | ["dcall", nc, under, lt, lf] =>
     match parseBool? nc, parseBool? under, idxArg? st lt, idxArg? st lf with
